@@ -1086,6 +1086,161 @@ def glue_interp(ctx, n):
 
 
 # ------------------------------------------------------------------------------------------------
+# the data set's own virtual sensors against katpoint evaluated dump by dump
+
+DV_PROJ = ['ARC', 'SIN', 'TAN', 'STG', 'CAR', 'SSN']
+ANT_M000 = 'm000, -30:42:39.8, 21:26:38.0, 1086.6, 13.5, -8.264 -207.29 8.597, 0:00:00.0 0 0 0 0, 1.22'
+ANT_M001 = 'm001, -30:42:39.8, 21:26:38.0, 1086.6, 13.5, 1.121 -171.762 8.471, 0:00:00.0 0 0 0 0, 1.22'
+ANT_ARRAY = 'array, -30:42:39.8, 21:26:38.0, 1086.6, 0.0, , , 1.22'
+
+
+def gen_dv(rng):
+    T = rng.randint(2, 7)
+    names = []
+    for ant in ('m000', 'm001'):
+        names += [f'Antennas/{ant}/{x}' for x in ('lst', 'ra', 'dec', 'parangle', 'u', 'v', 'w')]
+        for proj in rng.sample(DV_PROJ, 2):
+            for cs in ('azel', 'radec'):
+                names += [f'Antennas/{ant}/target_{xy}_{proj}_{cs}' for xy in 'xy']
+    names += ['Timestamps/mjd'] + [f'Antennas/array/basis_{x}' for x in 'uvw']
+    order = rng.sample(names, rng.randint(3, 10))
+    lo = rng.randint(0, T - 1)
+    return dict(kind='dv', seed=rng.randrange(2 ** 31), T=T, over=rng.random() < 0.4, n_targets=rng.randint(1, 2),
+                keep=[lo, rng.randint(lo + 1, T)], order=order)
+
+
+def run_dv(case):
+    """-> (violation text or None, tags)"""
+    import katpoint
+    from katdal.categorical import CategoricalData
+    from katdal.dataset import DEFAULT_SENSOR_PROPS, DEFAULT_VIRTUAL_SENSORS
+    from katdal.sensordata import SensorCache
+    rs = np.random.RandomState(case['seed'])
+    T = case['T']
+    ts = 1600000000.0 + rs.randint(0, 86400) + 8.0 * np.arange(T)
+    ants = {'m000': katpoint.Antenna(ANT_M000), 'm001': katpoint.Antenna(ANT_M001), 'array': katpoint.Antenna(ANT_ARRAY)}
+    # targets that are well above the horizon: one fixed in (az, el), one fixed on the sky
+    az0, el0 = rs.uniform(-np.pi, np.pi), rs.uniform(0.6, 1.1)
+    t_azel = katpoint.construct_azel_target(az0, el0)
+    ra0, dec0 = t_azel.radec(ts[T // 2], ants['array'])
+    t_radec = katpoint.construct_radec_target(ra0, dec0)
+    tg = [t_radec, t_azel] if rs.randint(2) else [t_azel, t_radec]
+    tg = tg[:case['n_targets']]
+    cut = [0, T] if len(tg) == 1 else [0, int(rs.randint(1, T)), T]
+    keep = np.zeros(T, dtype=bool)
+    keep[case['keep'][0]:case['keep'][1]] = True
+    cache = SensorCache({}, ts, 8.0, keep=keep, props=DEFAULT_SENSOR_PROPS, virtual=DEFAULT_VIRTUAL_SENSORS)
+    cache['Observation/target'] = CategoricalData(tg, cut)
+    which = np.zeros(T, dtype=int)
+    if len(tg) == 2:
+        which[cut[1]:] = 1
+    src = {}
+    for a in ('m000', 'm001', 'array'):
+        cache[f'Antennas/{a}/antenna'] = CategoricalData([ants[a]], [0, T])
+        if a == 'array':
+            continue
+        # point near the target of each dump; optionally "over the top" (el > 90 deg means the same direction as
+        # (az + 180 deg, 180 deg - el))
+        az = np.empty(T)
+        el = np.empty(T)
+        for i in range(T):
+            a_t, e_t = tg[which[i]].azel(ts[i], ants[a])
+            az[i] = a_t + rs.uniform(-0.03, 0.03)
+            el[i] = e_t + rs.uniform(-0.03, 0.03)
+            if case['over'] and rs.randint(2):
+                az[i], el[i] = az[i] - np.pi, np.pi - el[i]
+        cache[f'Antennas/{a}/az'] = az
+        cache[f'Antennas/{a}/el'] = el
+        src[a] = (az.copy(), el.copy())
+
+    def sane(a):
+        az, el = src[a]
+        over = (el > np.pi / 2) & (el < np.pi)
+        return np.where(over, az + np.pi, az), np.where(over, np.pi - el, el)
+
+    def radec(a):
+        az, el = src[a]
+        return np.array([katpoint.construct_azel_target(x, y).radec(t, ants[a]) for t, x, y in zip(ts, az, el)]).T
+
+    def oracle(name):
+        parts = name.split('/')
+        if name == 'Timestamps/mjd':
+            return np.array([katpoint.Timestamp(t).to_mjd() for t in ts])
+        a, what = parts[1], parts[2]
+        if what == 'lst':
+            return np.array([ants[a].local_sidereal_time(t) for t in ts])
+        if what in ('ra', 'dec'):
+            return radec(a)[0 if what == 'ra' else 1]
+        if what == 'parangle':
+            az, el = src[a]
+            return np.array([katpoint.construct_azel_target(x, y).parallactic_angle(t, ants[a])
+                             for t, x, y in zip(ts, az, el)])
+        if what.startswith('target_'):
+            _, xy, proj, cs = what.split('_')
+            if cs == 'radec':
+                lon, lat = radec(a)
+                over = (lat > np.pi / 2) & (lat < np.pi)
+                lon, lat = np.where(over, lon + np.pi, lon), np.where(over, np.pi - lat, lat)
+            else:
+                lon, lat = sane(a)
+            out = np.array([tg[which[i]].sphere_to_plane(lon[i], lat[i], ts[i], ants[a], proj, cs) for i in range(T)])
+            return out[:, 0 if xy == 'x' else 1]
+        if what.startswith('basis_'):
+            k = 'uvw'.index(what[-1])
+            return np.array([tg[which[i]].uvw_basis(ts[i], ants[a])[k] for i in range(T)])
+        if what in 'uvw':
+            k = 'uvw'.index(what)
+            return np.array([tg[which[i]].uvw(ants[a], ts[i], ants['array'])[k] for i in range(T)])
+        raise KeyError(name)
+
+    tags = set()
+    for name in case['order']:
+        what = name.split('/')[-1]
+        tags.add('dv-' + (what if not what.startswith('target_') else 'target_' + what.split('_')[-1]))
+        try:
+            want = np.asarray(oracle(name), dtype=float)
+        except Exception:   # noqa: BLE001  (katpoint refuses the geometry: nothing to compare)
+            tags.add('dv-oracle-refused')
+            continue
+        try:
+            full = np.asarray(cache.get(name), dtype=float)
+            sel = np.asarray(cache[name], dtype=float)
+            again = np.asarray(cache.get(name), dtype=float)
+        except Exception as e:   # noqa: BLE001
+            return f'virtual sensor {name} raised {type(e).__name__}: {str(e)[:120]} where katpoint evaluates the ' \
+                   f'documented function of its source sensors', tags
+        if full.shape != want.shape or not np.allclose(full, want, rtol=0, atol=1e-6, equal_nan=True):
+            i = int(np.argmax(np.abs(full - want).reshape(T, -1).max(axis=1))) if full.shape == want.shape else 0
+            return (f'virtual sensor {name} differs from the documented function of its source sensors at dump {i}: '
+                    f'{full[i] if full.shape[0] > i else full} instead of {want[i]}'), tags
+        if not np.array_equal(sel, full[keep]):
+            return f'cache[{name!r}] is not the full-length result restricted to the time selection', tags
+        if not np.array_equal(again, full):
+            return f'repeated access to {name} returns different values', tags
+        for a, (az, el) in src.items():
+            for nm, orig in ((f'Antennas/{a}/az', az), (f'Antennas/{a}/el', el)):
+                if not np.array_equal(np.asarray(cache.get(nm)), orig):
+                    i = int(np.flatnonzero(np.asarray(cache.get(nm)) != orig)[0])
+                    return (f'reading {name} changed the cached sensor {nm} at dump {i}: {orig[i]} became '
+                            f'{np.asarray(cache.get(nm))[i]} (repeated access no longer returns the same values)'), tags
+    if case['over']:
+        tags.add('dv-over-the-top')
+    return None, tags
+
+
+def eval_dv(ctx, cases):
+    bad = []
+    for c in cases:
+        v, tags = run_dv(c)
+        if ctx is not None:
+            ctx.tag(*sorted(tags))
+            ctx.count(('dv', c['seed'], tuple(c['order'])), True, sample={'dv': c['order'][:3], 'T': c['T']})
+        if v:
+            bad.append((c, v))
+    return bad
+
+
+# ------------------------------------------------------------------------------------------------
 # shrinking
 
 def fails_like(case, what):
@@ -1105,6 +1260,14 @@ def fails_like(case, what):
 
 
 def shrink(case, what):
+    if case['kind'] == 'dv':
+        cur = copy.deepcopy(case)
+        for n in range(1, len(cur['order']) + 1):
+            cand = dict(cur, order=cur['order'][:n])
+            v, _ = run_dv(cand)
+            if v:
+                return cand, v
+        return case, what
     if case['kind'] == 'clean':
         cur = copy.deepcopy(case)
         samples = common.ddmin(cur['getter']['samples'],
@@ -1197,7 +1360,14 @@ def m_dummy_string(case, what):
     return what.startswith('dummy-nonnumeric:') and 'AttributeError' in what and 'string_' in what
 
 
+def m_target_coords(case, what):
+    """_calc_target_coords flipped over-the-top pointings in place on the cached az / el (ra / dec) arrays"""
+    return (case.get('kind') == 'dv' and case.get('over') and 'changed the cached sensor' in what
+            and 'target_' in what.split(' changed')[0])
+
+
 def register(ctx):
+    ctx.matchers['c12_target_coords_alter_pointing_sensors'] = m_target_coords
     ctx.matchers['c12_time_offset_applied_in_place'] = m_inplace_offset
     ctx.matchers['c12_dummy_np_string_removed'] = m_dummy_string
 
@@ -1218,11 +1388,14 @@ def run(ctx):
     n_concat = ctx.q(900, 20000)
     n_clean = ctx.q(700, 20000)
     glue_interp(ctx, ctx.q(100, 2000))
-    cases = corpus_cases()
+    corpus = corpus_cases()
+    cases = [c for c in corpus if c.get('kind') != 'dv']
     cases += [gen_single(ctx.rng) for _ in range(n_single)]
     cases += [gen_concat(ctx.rng) for _ in range(n_concat)]
     cases += [gen_clean_case(ctx.rng) for _ in range(n_clean)]
     bad = evaluate(ctx, cases)
+    bad += eval_dv(ctx, [c for c in corpus if c.get('kind') == 'dv'] +
+                   [gen_dv(ctx.rng) for _ in range(ctx.q(60, 1500))])
     if not build['build_ok'] and not any(True for c, w in bad):
         more = [gen_single(ctx.rng) for _ in range(5 * n_single)] + [gen_concat(ctx.rng) for _ in range(3 * n_concat)]
         bad += evaluate(ctx, more)
@@ -1239,6 +1412,10 @@ def run(ctx):
 def replay(ctx, rep):
     register(ctx)
     build = common.build_and_audit('C12', 'quick')
+    if rep['case'].get('kind') == 'dv':
+        for c, w in eval_dv(ctx, [rep['case']]):
+            ctx.violation(c, w)
+        return common.finish(ctx, build, RULE, CHECKER, TRUSTED)
     for c, w in evaluate(ctx, [rep['case']]):
         ctx.violation(c, w)
     return common.finish(ctx, build, RULE, CHECKER, TRUSTED)
